@@ -23,13 +23,17 @@ pub fn rc4(key: &[u8], data: &[u8]) -> Vec<u8> {
 pub fn ntowfv2(nt_hash: &[u8], user: &str, domain: &str) -> Vec<u8> { hmac_md5(nt_hash, &utf16(&(user.to_uppercase() + domain))) }
 
 pub fn challenge(flags: u32, server_challenge: &[u8; 8], target_info: &[u8], version: bool, ti_off_delta: i64, ti_len_delta: i64) -> Vec<u8> {
+    challenge_max(flags, server_challenge, target_info, version, ti_off_delta, ti_len_delta, 0)
+}
+/// `max_delta`: TargetInfoMaxLen = TargetInfoLen + max_delta (MaxLen is to be ignored on receipt)
+pub fn challenge_max(flags: u32, server_challenge: &[u8; 8], target_info: &[u8], version: bool, ti_off_delta: i64, ti_len_delta: i64, max_delta: u16) -> Vec<u8> {
     let hdr = if version { 56u32 } else { 48 };
     let mut v = b"NTLMSSP\0".to_vec();
     v.extend(&2u32.to_le_bytes());
     v.extend(&[0, 0, 0, 0]); v.extend(&hdr.to_le_bytes());
     v.extend(&flags.to_le_bytes()); v.extend(server_challenge); v.extend(&[0u8; 8]);
     let tl = (target_info.len() as i64 + ti_len_delta).max(0).min(65535) as u16;
-    v.extend(&tl.to_le_bytes()); v.extend(&tl.to_le_bytes());
+    v.extend(&tl.to_le_bytes()); v.extend(&tl.wrapping_add(max_delta).to_le_bytes());
     v.extend(&((hdr as i64 + ti_off_delta).max(0) as u32).to_le_bytes());
     if version { v.extend(&[6, 0, 0x72, 0x17, 0, 0, 0, 0x0f]); }
     v.extend(target_info);
@@ -149,7 +153,8 @@ pub fn generate_c15(thorough: bool, seed: u64, _part: (usize, usize), em: &mut E
         if r.chance(1, 4) { flags |= 0x80000000 | 0x00020000; }
         let sc = { let b = r.bytes(8); let mut a = [0u8; 8]; a.copy_from_slice(&b); a };
         let ti = target_info(&mut r, true);
-        run_auth(em, &c, &challenge(flags, &sc, &ti, version, 0, 0));
+        let md = if i % 5 == 3 { *r.pick(&[4u16, 1, 100, 0xfff0]) } else { 0 };
+        run_auth(em, &c, &challenge_max(flags, &sc, &ti, version, 0, 0, md));
     }
 }
 
